@@ -125,6 +125,18 @@ def _inplace(opname, operand):
     return f
 
 
+def _iadd_self(D, R, ctx):
+    # the operand IS the carrier (dense: R += R doubles it; a carrier that iterates over the lists it appends to never
+    # returns -- the engine's case timeout reports that as no_return)
+    D += D
+    return D, R + R
+
+
+def _isub_self(D, R, ctx):
+    D -= D
+    return D, R - R
+
+
 def _zero_rows(D, R, ctx):
     D[np.array([0]), :] = 0.0
     return D, rd.zero_rows(R, np.array([0]))
@@ -148,6 +160,8 @@ OPS = {
     'neg': lambda D, R, ctx: (-D, -R), 'pos': lambda D, R, ctx: (+D, +R),
     'iadd_r': _inplace('iadd', 'Pr'), 'iadd_c': _inplace('iadd', 'Pc'), 'isub_r': _inplace('isub', 'Pr'),
     'isub_c': _inplace('isub', 'Pc'),
+    'iadd_self': _iadd_self, 'isub_self': _isub_self,
+    'add_self': lambda D, R, ctx: (D + D, R + R), 'sub_self': lambda D, R, ctx: (D - D, R - R),
     'lmul2': lambda D, R, ctx: (2.0 * D, 2.0 * R), 'rmul2': lambda D, R, ctx: (D * 2.0, R * 2.0),
     'lmulj': lambda D, R, ctx: (1j * D, 1j * R), 'rmulj': lambda D, R, ctx: (D * 1j, R * 1j),
     'mul0': lambda D, R, ctx: (D * 0.0, R * 0.0),
@@ -170,8 +184,8 @@ OPS = {
     'sl_norows': lambda D, R, ctx: (D[1:1, :], R[1:1, :]),
     'sl_nocols': lambda D, R, ctx: (D[:, np.array([], dtype=int)], R[:, np.array([], dtype=int)]),
 }
-INPLACE = {'iadd_r', 'iadd_c', 'isub_r', 'isub_c', 'zero_row', 'zero_col', 'zero_rowslice'}
-OPS_QUICK = ['add_r', 'add_c', 'add_0', 'radd_c', 'sub_c', 'rsub_c', 'neg', 'iadd_r', 'isub_c', 'lmul2', 'rmulj', 'mul0',
+INPLACE = {'iadd_r', 'iadd_c', 'isub_r', 'isub_c', 'iadd_self', 'isub_self', 'zero_row', 'zero_col', 'zero_rowslice'}
+OPS_QUICK = ['add_r', 'add_c', 'add_0', 'radd_c', 'sub_c', 'rsub_c', 'neg', 'iadd_r', 'isub_c', 'iadd_self', 'isub_self', 'add_self', 'lmul2', 'rmulj', 'mul0',
              'lmul_tiny', 'rmul_big',
              'lmatc', 'rmat', 'rmat_rect', 'T', 'conj', 'real', 'imag', 'copy', 'sl_rows', 'sl_fancy', 'sl_step',
              'zero_row', 'zero_col', 'sl_norows', 'sl_nocols']
